@@ -45,6 +45,11 @@ func next(tag string) int {
 	return cnt
 }
 
+func boomArg(tag string) int {
+	fmt.Println("eval", tag, "panics")
+	panic("boom-arg-" + tag)
+}
+
 func mine(s string) bool {
 	if strings.HasPrefix(s, "boom-") || strings.HasPrefix(s, "err-") || strings.HasPrefix(s, "wrap-") || strings.HasPrefix(s, "myerr-") {
 		return true
@@ -108,6 +113,21 @@ func deepRecover(tag string) {
 func namedDeep(tag string) {
 	fmt.Println("defer", tag, "nameddeep")
 	deepRecover(tag)
+}
+
+func recur(tag string, n int, stop int) (res int) {
+	defer func() {
+		fmt.Println("defer recur", tag, n)
+		if n == stop {
+			r := recover()
+			report(tag, r)
+			res = -n
+		}
+	}()
+	if n == 0 {
+		panic("boom-recur-" + tag)
+	}
+	return recur(tag, n-1, stop) + 1
 }
 
 func deferVia(tag string, cb func(), mode int) {
@@ -259,6 +279,8 @@ func (e *emitter) arg(ind int, st *Stmt, tag string) string {
 	switch st.Arg {
 	case aNext:
 		return fmt.Sprintf("next(%q)", tag)
+	case aBoom:
+		return fmt.Sprintf("boomArg(%q)", tag)
 	case aVar, aVarM:
 		e.line(ind, "x%d := d + %d", st.N, st.N+10)
 		return fmt.Sprintf("x%d", st.N)
@@ -372,6 +394,9 @@ func (e *emitter) deferStmt(ind int, fn *Fn, st *Stmt, tag string, code int) {
 		e.line(ind, "defer close(c%d)", n)
 	case fBRecover:
 		e.line(ind, "defer recover()")
+	case fNilFunc:
+		e.line(ind, "var h%d func()", n)
+		e.line(ind, "defer h%d()", n)
 	case fLoop:
 		if st.Loop == lMethod {
 			e.line(ind, "t%d := &T{d + %d}", n, n+20)
@@ -427,7 +452,27 @@ func (e *emitter) fn(fn *Fn) {
 		code := fn.ID*10 + st.N
 		switch st.Kind {
 		case sDefer:
-			e.deferStmt(1, fn, st, tag, code)
+			if st.Cond >= 0 {
+				e.line(1, "if d == %d {", st.Cond)
+				e.deferStmt(2, fn, st, tag, code)
+				e.line(1, "}")
+			} else {
+				e.deferStmt(1, fn, st, tag, code)
+			}
+		case sRecur:
+			e.line(1, "fmt.Println(\"%s got\", recur(%q, %d, %d))", tag, tag, st.RecurN, st.RecurStop)
+		case sIIFE:
+			e.line(1, "func() {")
+			e.line(2, "fmt.Println(\"enter %s inner\")", tag)
+			e.line(2, "defer func() {")
+			e.line(3, "fmt.Println(\"defer %s start\")", tag)
+			e.body(3, fn, st.Body, tag, code)
+			e.line(2, "}()")
+			if st.Raise != nil {
+				e.raise(2, st.Raise, tag, code+3)
+			}
+			e.line(2, "fmt.Println(\"exit %s inner\")", tag)
+			e.line(1, "}()")
 		case sCall:
 			ind := 1
 			a := fmt.Sprint(st.CallArg)
